@@ -635,6 +635,29 @@ Proof.
 Qed.
 
 (* ------------------------------------------------------------------ normalise *)
+
+(* the six statements of setup_config, composed in program order, amount to this *)
+Lemma normalise_closed c :
+  normalise c =
+  let has := has_ens_engs c in
+  let q := quantis_val c in
+  let ee0 := if has then match ens_engs c with Some l => l | None => [] end
+             else map (fun _ => [name_engine]) (interfaces c) in
+  let ee1 := if q && negb has
+             then match ee0 with [] => [] | _ :: r => [name_engine0] :: r end
+             else ee0 in
+  mkC (interfaces c) (workers c) (moves c) (cap c)
+      (Some q)
+      (Some (lm1_val c))
+      (Some (match accept_all c with Some b => b | None => false end))
+      (Some (match seed c with Some s => s | None => 0%Z end))
+      (Some ee1)
+      (sections c).
+Proof.
+  destruct c as [intf w ms cp q l aa sd ee secs].
+  destruct ee as [[|e ee]|], q as [[|]|], intf as [|i r]; reflexivity.
+Qed.
+
 Lemma normalise_idempotent c : normalise (normalise c) = normalise c.
 Proof.
   destruct c as [intf w ms cp q l aa sd ee secs].
@@ -648,13 +671,14 @@ Lemma normalise_keeps c :
   sections (normalise c) = sections c /\ lm1_val (normalise c) = lm1_val c /\
   quantis_val (normalise c) = quantis_val c.
 Proof.
+  rewrite normalise_closed. cbn zeta.
   repeat split. unfold lm1_val at 1. cbn. now destruct (lm1_val c).
 Qed.
 
 Lemma normalise_fills c :
   quantis (normalise c) <> None /\ lm1 (normalise c) <> None /\ accept_all (normalise c) <> None /\
   seed (normalise c) <> None /\ ens_engs (normalise c) <> None.
-Proof. cbn. repeat split; discriminate. Qed.
+Proof. rewrite normalise_closed. cbn. repeat split; discriminate. Qed.
 
 (* an explicitly given, non-empty engine list is kept; otherwise one ["engine"] per interface
    with ["engine0"] first under quantis *)
@@ -667,18 +691,42 @@ Lemma normalise_engines c :
                      :: map (fun _ => [name_engine]) r
          end).
 Proof.
+  rewrite normalise_closed.
   cbn. f_equal. destruct (has_ens_engs c); [now rewrite andb_false_r|].
   rewrite andb_true_r. destruct (interfaces c); cbn; destruct (quantis_val c); reflexivity.
 Qed.
 
+(* validation follows normalisation: whatever statement 5 of setup_config puts in place is
+   seen by check_config.  Under quantis without an engine list of its own, an accepted
+   configuration has ["engine0"] for [0-] and a table of that name. *)
+Lemma quantis_engine0_checked c :
+  check_config (normalise c) = Ok -> quantis_val c = true -> has_ens_engs c = false ->
+  ens_engs (normalise c)
+    = Some ([name_engine0] :: map (fun _ => [name_engine]) (tl (interfaces c))) /\
+  In name_engine0 (map fst (sections c)).
+Proof.
+  intros A Q H. apply accept_sound in A.
+  pose proof (normalise_engines c) as E. rewrite H, Q in E.
+  destruct (normalise_keeps c) as [KI [_ [_ [_ [KS _]]]]].
+  pose proof (v_two _ A) as V2. rewrite KI in V2.
+  destruct (interfaces c) as [|i r] eqn:I; [cbn in V2; lia|].
+  split; [exact E|]. rewrite <- KS.
+  apply (v_engines _ A _ name_engine0 E). cbn. now left.
+Qed.
+
 Lemma setup_config_spec c :
   let '(c', r) := setup_config c in
-  c' = normalise c /\ normalise c' = c' /\
+  c' = normalise c /\ r = check_config (normalise c) /\ normalise c' = c' /\
   (r = Ok -> valid c') /\ (~ valid c' -> exists k, r = ConfigError k /\ err_holds c' k) /\
-  r <> Crash IndexError.
+  r <> Crash IndexError /\
+  (r = Ok -> quantis_val c = true -> has_ens_engs c = false ->
+   ens_engs c' = Some ([name_engine0] :: map (fun _ => [name_engine]) (tl (interfaces c))) /\
+   In name_engine0 (map fst (sections c))).
 Proof.
-  cbn. split; [reflexivity|]. split; [apply normalise_idempotent|].
-  split; [apply accept_sound|]. split; [apply reject_is_config_error | apply no_index_error].
+  unfold setup_config. cbn zeta.
+  split; [reflexivity|]. split; [reflexivity|]. split; [apply normalise_idempotent|].
+  split; [apply accept_sound|]. split; [apply reject_is_config_error|].
+  split; [apply no_index_error | apply quantis_engine0_checked].
 Qed.
 
 (* ------------------------------------------------------------------ the route (fresh / restart) *)
@@ -721,9 +769,12 @@ Proof. intros E P. now rewrite setup_from_continues. Qed.
 
 Lemma setup_any_route steps cur c c' r :
   setup_from steps cur c = Some (c', r) ->
-  c' = normalise c /\ normalise c' = c' /\
+  c' = normalise c /\ r = check_config (normalise c) /\ normalise c' = c' /\
   (r = Ok -> valid c') /\ (~ valid c' -> exists k, r = ConfigError k /\ err_holds c' k) /\
-  r <> Crash IndexError.
+  r <> Crash IndexError /\
+  (r = Ok -> quantis_val c = true -> has_ens_engs c = false ->
+   ens_engs c' = Some ([name_engine0] :: map (fun _ => [name_engine]) (tl (interfaces c))) /\
+   In name_engine0 (map fst (sections c))).
 Proof.
   intros H. apply setup_from_some in H. pose proof (setup_config_spec c) as S.
   rewrite <- H in S. exact S.
@@ -732,7 +783,7 @@ Qed.
 Lemma invalid_never_starts steps cur c :
   ~ valid (normalise c) -> ~ sampling_starts (setup_from steps cur c).
 Proof.
-  intros NV [c' H]. destruct (setup_any_route _ _ _ _ _ H) as [E [_ [A _]]].
+  intros NV [c' H]. destruct (setup_any_route _ _ _ _ _ H) as [E [_ [_ [A _]]]].
   subst c'. exact (NV (A eq_refl)).
 Qed.
 
